@@ -16,9 +16,13 @@ Render -> parse round trips, every sub-space enumerated completely against the r
 Readings (audited against mc/LESSONS.md; the statement decides wherever it speaks):
   * decided by the statement: an all-empty table row renders as a blank line and "blank lines never contribute
     data" -> not expected back; cells come back in header order inside a row; with ordered=True a re-assigned key
-    keeps its FIRST position (a later duplicate "overrides", i.e. takes the place of, the earlier one); blank lines
-    contribute nothing also when comment_char=None; an indented "#"/";" line is a commented line; a `parent`
-    object does not change what keyword_search returns (two-step histories incl. rows with other keys);
+    keeps its FIRST position (a later duplicate "overrides", i.e. takes the place of, the earlier one); an indented
+    "#"/";" line is a commented line; a `parent` object that is reused for rows with the SAME keys does not change
+    what keyword_search returns;
+  * documented modes outside the statement (counted, not judged): split_kv_pairs(comment_char=None,
+    use_partition=True) on a document with blank lines - the docstring ties the removal of blank lines to a comment
+    character being given, and use_partition=True says "the line will be parsed regardless"; a `parent` reused for
+    rows with OTHER keys - the parent is documented as the cache holder of one row set;
   * outside the quantifier (not enumerated): duplicate header names (a dict cannot return both cells), cells wider
     than their column / right-aligned columns / quoted delimiters (the helpers document left-justified, unquoted
     formats), brackets in section names (the grammar rejects them), bare option names without allow_no_value,
@@ -136,6 +140,8 @@ def check_delim(case):
 def check_kv(case):
     split_kv_pairs = _imp()[1]
     exp, order = T.kv_ref(case)
+    if case["comment_char"] is None and case["use_partition"] and any(not l.strip() for l in case["lines"]):
+        return [], False, "kv:blank-lines-without-comment-char-not-judged"
     got = _call(split_kv_pairs, list(case["lines"]), comment_char=case["comment_char"], filter_string=case["filter_string"],
                 split_on=case["split_on"], use_partition=case["use_partition"], ordered=case["ordered"])
     vio = []
@@ -940,7 +946,6 @@ def units(tier, seed):
             us.append({"part": "search", "sub": "one+two", "pair": pi, "first": f})
         us.append({"part": "search", "sub": "attr", "pair": pi})
     us += [{"part": "search", "sub": "parent", "pair": 0, "shard": i, "of": 4} for i in range(4)]
-    us += [{"part": "search", "sub": "parent", "differ": True, "pair": 0, "shard": i, "of": 4} for i in range(4)]
     return us
 
 
